@@ -323,7 +323,31 @@ def _trivial(ck):
         return _TRIVIAL[ck]
     if ck.startswith("truthy(") and ck[7:-1].lstrip("-").isdigit():
         return int(ck[7:-1]) != 0
+    if ck.startswith("Is(") and ck.endswith(",None)"):
+        x = ck[3:-len(",None)")]
+        # a tuple / list / dict display, a string or a number is never None
+        if _whole(x, "tuple(", ")") or _whole(x, "[", "]") or _whole(x, "{", "}") or x.lstrip("-").isdigit() or (len(x) >= 2 and x[0] in "'\"" and x[-1] == x[0] and x.count(x[0]) == 2):
+            return False
+    if ck.startswith("truthy(") and ck.endswith(")"):
+        x = ck[7:-1]
+        if _whole(x, "tuple(", ")") and x != "tuple()":
+            return True  # a non-empty tuple display
     return None
+
+
+def _whole(x, opener, closer):
+    """x is one bracketed display `opener ... closer` (the opening bracket closes at the very end)"""
+    if not (x.startswith(opener) and x.endswith(closer)):
+        return False
+    depth = 0
+    for i, ch in enumerate(x):
+        if ch in "([{":
+            depth += 1
+        elif ch in ")]}":
+            depth -= 1
+            if depth == 0 and i != len(x) - 1:
+                return False
+    return depth == 0
 
 
 class _NoLoop:
